@@ -14,7 +14,13 @@ fn c02_delivered_heights_small_chains() {
     let mut cases = 0;
     for tip in 0..=(if thorough() { 9u64 } else { 4 }) {
         let chain = make_chain(tip + 1, &mut |_| vec![]);
-        let d = simple_dir(&chain);
+        // odd tips: one file in height order; even tips: three files, heights stored out of order across the file boundaries
+        let d = if tip % 2 == 1 { simple_dir(&chain) } else {
+            let mut d = DataDir::new();
+            let order: Vec<u64> = (0..=tip).rev().collect();
+            for h in order { d.add([2u64, 0, 1][(h % 3) as usize], h, &chain[h as usize], ST_ACTIVE); }
+            d
+        };
         d.write();
         let mut ranges: Vec<(u64, Option<u64>)> = vec![];
         for s in 0..=tip { ranges.push((s, None)); for e in (s + 1)..=(tip + 2) { ranges.push((s, Some(e))); } }
@@ -41,7 +47,9 @@ fn c02_csvdump_file_names_and_slices() {
     let suite = "c02_csvdump_file_names_and_slices";
     let mut cases = 0;
     for tip in 1..=(if thorough() { 6u64 } else { 3 }) {
-        let chain = make_chain(tip + 1, &mut |_| vec![]);
+        let mut chain = make_chain(tip + 1, &mut |_| vec![]);
+        // a byte-identical coinbase in blocks 0 and 2 (pre-BIP34 style): a per-block output must not depend on earlier blocks
+        if tip >= 2 { chain[2].txs[0] = chain[0].txs[0].clone(); relink(&mut chain); }
         let d = simple_dir(&chain);
         d.write();
         let run = |s: u64, e: Option<u64>| -> (tempfile::TempDir, std::result::Result<(), String>) {
